@@ -24,19 +24,19 @@ Definition th_atom (fp : bool) (a : atom) : result pyval :=
 
 (* an item (or element) paired with the (lazily evaluated) conversion of its value *)
 Definition item := (pyval * pyval * result pyval)%type.
-Definition item_lt (a b : item) : result bool :=                    (* < on the (k, v) tuples of .items() *)
-  py_lt (pair_t (fst (fst a)) (snd (fst a))) (pair_t (fst (fst b)) (snd (fst b))).
+Definition item_lt (a b : item) : result bool :=                    (* key=lambda kv: _sort_key(kv[0]) *)
+  key_lt (fst (fst a)) (fst (fst b)).
 Definition elem := (pyval * result pyval)%type.
-Definition elem_lt (a b : elem) : result bool := py_lt (fst a) (fst b).
+Definition elem_lt (a b : elem) : result bool := key_lt (fst a) (fst b).      (* key=_sort_key *)
 
-(* _hashable_mapping: items = sorted(mapping.items()) if sort else mapping.items();
+(* _hashable_mapping: items = sorted(mapping.items(), key=lambda kv: _sort_key(kv[0])) if sort else mapping.items();
    tuple((k, to_hashable(v)) for k, v in items) *)
 Definition hashable_mapping (sort : bool) (items : list item) : result pyval :=
   do its <- (if sort then py_sort item_lt items else Ok items);
   do out <- mapM (fun it : item => do hv <- snd it; Ok (pair_t (fst (fst it)) hv)) its;
   Ok (PTuple out).
 
-(* _hashable_iterable: items = sorted(iterable) if sort else iterable; tuple(to_hashable(item) for item in items) *)
+(* _hashable_iterable: items = sorted(iterable, key=_sort_key) if sort else iterable; tuple(to_hashable(item) for item in items) *)
 Definition hashable_iterable (sort : bool) (elems : list elem) : result pyval :=
   do es <- (if sort then py_sort elem_lt elems else Ok elems);
   do out <- mapM (fun e : elem => snd e) es;
